@@ -143,8 +143,9 @@ def clean_results(desc, tag="clean", mode="dev"):
         shutil.rmtree(p, ignore_errors=True)
 
 
-def gen_history(rng, n):
-    """list of project descriptions: random single edits and reverts to earlier states"""
+def gen_history(rng, n, prefer=None):
+    """list of project descriptions: random single edits and reverts to earlier states;
+    prefer = edit kinds to favour (C05: edits that make steps re-execute, so that injected faults fire)"""
     base = gen_project(rng)
     hist = [base]
     kinds = ["base"]
@@ -154,9 +155,10 @@ def gen_history(rng, n):
             kinds.append("revert")
             continue
         e = None
-        for _try in range(6):
+        favour = prefer is not None and rng.random() < 0.8
+        for _try in range(30 if favour else 6):
             e = c02_edit(hist[-1], rng)
-            if e is not None:
+            if e is not None and (not favour or e[1] in prefer):
                 break
         if e is None:
             hist.append(copy.deepcopy(hist[-1])); kinds.append("same")
